@@ -382,6 +382,38 @@ def enumerate_wide_deep() -> Iterator[Any]:
         yield ["seq", [E(), cur, E()]]
 
 
+def enumerate_shared_tails() -> Iterator[Any]:
+    """F-adjacent (event names repeat, as in several corpus files): branches of an AND/OR fork that end in the same
+    event types — A; op{B; C; E | D; C; E}; F, A; op{B; C | D; C | G}; F, the same inside a loop body.  The merge check
+    has to count the paths that sit on one event type."""
+    for op in ("AND", "OR"):
+        for shape in ("two_tail", "two_of_three", "one_tail"):
+            for in_loop in (0, 1):
+                if shape == "two_tail":
+                    brs = [["seq", [["ev", "B"], ["ev", "C"], ["ev", "E"]]], ["seq", [["ev", "D"], ["ev", "C"], ["ev", "E"]]]]
+                elif shape == "two_of_three":
+                    brs = [["seq", [["ev", "B"], ["ev", "C"]]], ["seq", [["ev", "D"], ["ev", "C"]]], ["seq", [["ev", "G"]]]]
+                else:
+                    brs = [["seq", [["ev", "B"], ["ev", "C"]]], ["seq", [["ev", "D"], ["ev", "C"]]]]
+                core = [["ev", "H"], ["fork", op, brs], ["ev", "F"]]
+                if in_loop:
+                    yield ["seq", [["ev", "A"], ["loop", ["seq", core]], ["ev", "Z"]]]
+                else:
+                    yield ["seq", [["ev", "A"]] + core]
+
+
+def enumerate_staged_exits() -> Iterator[Any]:
+    """F-adjacent (an exit inside a choice, a branch that begins with a fork): a three-way choice two of whose branches
+    re-join early, one of them holding a choice with an early exit — A; XOR{ XOR{ B; XOR{P; detach | Q1 | Q2}; M | C }; D | X }; E
+    (and with a two-way inner choice) — the exit event under five names (which child is walked first follows the names)."""
+    for exit_name in ("P", "A0", "N", "Q0", "Zz"):
+        for three in (1, 0):
+            inner_brs = [["seq", [["ev", exit_name], ["detach"]]], ["seq", [["ev", "Q1"]]]] + ([["seq", [["ev", "Q2"]]]] if three else [])
+            inner = ["fork", "XOR", inner_brs]
+            early = ["fork", "XOR", [["seq", [["ev", "B"], inner, ["ev", "M"]]], ["seq", [["ev", "C"]]]]]
+            yield ["seq", [["ev", "A"], ["fork", "XOR", [["seq", [early, ["ev", "D"]]], ["seq", [["ev", "X"]]]]], ["ev", "E"]]]
+
+
 def enumerate_break_forks() -> Iterator[Any]:
     """inside F: a loop whose body is B; XOR{ X; break | (X2; break)? | C… | D… | (E)? }; (F)? — one or two break
     branches next to two or three branches that carry on (one or two events each), with or without an event after the
